@@ -30,6 +30,11 @@ type Case struct {
 	UDP     socksrun.Backend   `json:"udp"`
 	ICMP    socksrun.Backend   `json:"icmp"`
 	Obs     *socksrun.Observed `json:"observed,omitempty"`
+	// Pair, when set, makes this a two-connection scenario on one handler:
+	// Session/Plan describe the connection that is reported, Pair both
+	// connections (side 0 is served first and kept waiting in a write)
+	Pair     *[2]socksrun.PairSide `json:"pair,omitempty"`
+	PairSide int                   `json:"pair_side,omitempty"`
 }
 
 // ---------------------------------------------------------------------------
@@ -300,9 +305,31 @@ func (h *harness) runConfig(ac socksrun.AuthCfg, cases []Case) {
 	defer cleanup()
 	var hd *socks5.Handler = a.VerifSOCKS5Server().VerifHandler()
 	methods := hd.VerifAuthMethods()
+	var pairObs [2]socksrun.Observed
 	for _, k := range cases {
 		k.Cfg = ac
-		o := socksrun.Run(h.t, hd, k.Session.Input, k.Plan, k.UDP, k.ICMP)
+		var o socksrun.Observed
+		if k.Pair != nil {
+			// two connections on this handler; the pair is run when its first side comes up
+			if k.PairSide == 0 || c.Replay != "" {
+				pairObs[0], pairObs[1] = socksrun.RunPair(h.t, hd, k.Pair[0], k.Pair[1])
+			}
+			o = pairObs[k.PairSide]
+			// alone, the same bytes must produce the same writes
+			solo := socksrun.Run(h.t, hd, k.Session.Input, k.Plan, k.UDP, k.ICMP)
+			same := len(solo.Writes) == len(o.Writes)
+			for i := 0; same && i < len(o.Writes); i++ {
+				same = bytes.Equal(solo.Writes[i], o.Writes[i])
+			}
+			if !same {
+				c.Fail("reply-differs-when-another-connection-is-served",
+					fmt.Sprintf("connection %d of a pair on one handler received % x; served alone the same client receives % x (the other connection's request: % x)",
+						k.PairSide, o.Writes, solo.Writes, k.Pair[1-k.PairSide].Input), k)
+			}
+			c.Count("pair-side")
+		} else {
+			o = socksrun.Run(h.t, hd, k.Session.Input, k.Plan, k.UDP, k.ICMP)
+		}
 		h.monitor(k, o)
 		// histogram: how far sessions get, command / address kinds, plan kinds
 		method := -1
@@ -333,6 +360,43 @@ func (h *harness) runConfig(ac socksrun.AuthCfg, cases []Case) {
 		c.Case(key, len(o.Writes) > 0, ko)
 		h.coq = append(h.coq, line)
 	}
+}
+
+// pairCases: connection 0 asks for something whose reply differs from
+// connection 1's; its client reads the handshake writes and then pauses.
+func pairCases(ac socksrun.AuthCfg) []Case {
+	hs := []byte{5, 1, 0}
+	gate := 1
+	if ac.Enabled {
+		hs = []byte{5, 1, 2, 1, 1, 'u', 1, 'p'}
+		gate = 2
+	}
+	mk := func(reqBytes []byte, plan socksrun.DialPlan, dial string, g int) socksrun.PairSide {
+		return socksrun.PairSide{Input: append(append([]byte{}, hs...), reqBytes...), Plan: plan, DialAddr: dial, Gate: g}
+	}
+	ok4 := socksrun.DialPlan{Kind: "ok", BindIP: []byte{10, 1, 1, 1}, BindPort: 1111}
+	ok6 := socksrun.DialPlan{Kind: "ok", BindIP: []byte{0x20, 1, 0xd, 0xb8, 0, 0, 0, 0, 0, 0, 0, 0, 0, 0, 0, 2}, BindPort: 2222}
+	fail := socksrun.DialPlan{Kind: "dns"}
+	connect1 := []byte{5, 1, 0, 1, 1, 1, 1, 1, 0, 80}
+	connect2 := []byte{5, 1, 0, 1, 2, 2, 2, 2, 1, 187}
+	bind := []byte{5, 2, 0, 1, 3, 3, 3, 3, 0, 80}
+	badAtyp := []byte{5, 1, 0, 9, 0, 0}
+	pairs := [][2]socksrun.PairSide{
+		{mk(connect1, ok4, "1.1.1.1:80", gate), mk(bind, ok4, "", -1)},
+		{mk(bind, ok4, "", gate), mk(connect2, ok6, "2.2.2.2:443", -1)},
+		{mk(connect1, fail, "1.1.1.1:80", gate), mk(connect2, ok4, "2.2.2.2:443", -1)},
+		{mk(badAtyp, ok4, "", gate), mk(connect2, ok6, "2.2.2.2:443", -1)},
+		{mk(connect1, ok6, "1.1.1.1:80", gate), mk(connect2, ok4, "2.2.2.2:443", -1)},
+	}
+	var out []Case
+	for i := range pairs {
+		p := pairs[i]
+		for side := 0; side < 2; side++ {
+			out = append(out, Case{Session: socksrun.Session{Input: p[side].Input, ExactEnd: true, Note: fmt.Sprintf("pair %d side %d", i, side)},
+				Plan: p[side].Plan, UDP: "off", ICMP: "off", Pair: &p, PairSide: side})
+		}
+	}
+	return out
 }
 
 func bucket(n int) int {
@@ -413,7 +477,18 @@ func TestVerif(t *testing.T) {
 				s := socksrun.GenRandom(r, r.Pick(4, 16, 40, 600))
 				cases = append(cases, Case{Session: s, Plan: socksrun.PickPlan(r, s), UDP: socksrun.PickBackend(r), ICMP: socksrun.PickBackend(r)})
 			}
-			h.runConfig(ac, cases)
+			// field-length boundaries
+			var validCred *socksrun.Cred
+			if ac.Enabled {
+				validCred = &socksrun.Cred{User: []byte("u"), Pass: []byte("p")}
+			}
+			var fixed []Case
+			for _, s := range socksrun.BoundarySessions(validCred, ac.Enabled) {
+				fixed = append(fixed, Case{Session: s, Plan: okPlan, UDP: "create-fails", ICMP: "create-fails"})
+			}
+			// two connections on one handler, the first kept waiting in its reply write while the second is served
+			fixed = append(fixed, pairCases(ac)...)
+			h.runConfig(ac, append(fixed, cases...))
 		}
 	}
 
